@@ -533,6 +533,9 @@ func evalWhileLoopStmt(vm *r.VM, node *syntax.WhileLoopStmt) error {
 
 	for {
 		verifTick()
+		// the condition belongs to the line of the loop statement (after the first pass
+		// the current line is still the one of the last statement of the loop body)
+		vm.SetCurrentLine(node.GetCurrentLine())
 		// #1. first execute expr
 		trueExpr, err := evalExpression(vm, node.TrueExpr)
 		if err != nil {
